@@ -264,8 +264,11 @@ class Core : public ResultCoreT<Type, Ret, E>, public FuncCore<Func> {
       static_assert(kIsException ^ kIsError, "Recovery callback should be invokable with std::exception_ptr or E");
       constexpr auto kState = kIsException ? ResultState::Exception : ResultState::Error;
       if (state == kState) {
-        using T = std::conditional_t<kIsException, std::exception_ptr, E>;
-        return CallResolveAsync<SymmetricTransfer>(std::get<T>(std::forward<Result>(r).Internal()));
+        if constexpr (kIsException) {
+          return CallResolveAsync<SymmetricTransfer>(std::forward<Result>(r).Exception());
+        } else {
+          return CallResolveAsync<SymmetricTransfer>(std::forward<Result>(r).Error());
+        }
       }
       return Done<SymmetricTransfer>(std::move(r));
     }
